@@ -109,7 +109,7 @@ class Sym:
         self.upper = {}               # atom -> [Poly]  (atom <= each)
         self.weak = set()             # atoms some of whose bounds did not resolve
         self.phi = {}                 # atom -> [Poly]  (the value is one of these)
-        self.phi_zero = {}            # atom -> [frozenset(atoms known to be 0 when that alternative is taken)]
+        self.phi_guard = {}           # atom -> [{rel: (op, A, B, truth) | None, known: bool}] per alternative
         self.divinfo = {}             # atom -> (op, dividend Poly, divisor Poly)   op in Div / Rem / DivCeil
 
     # ---- atoms
@@ -370,7 +370,9 @@ class Sym:
         if not steps and inits and all(self.decided(x) for x in inits):
             nm = "oneof@%s" % self._lname(l)
             self.phi[nm] = inits
-            self.phi_zero[nm] = [self._guard_zero(s_) for s_ in ds]
+            self.phi_guard[nm] = [self._guard(s_, [o for o in ds if o is not s_]) for s_ in ds]
+            if any(not g_["known"] for g_ in self.phi_guard[nm]):
+                self.weak.add(nm)
             return self._known(nm, "one of several values, by control flow")
         if len(inits) != 1 or not steps:
             return self._opaque(self._lname(l), "several unrelated definitions")
@@ -382,52 +384,47 @@ class Sym:
         g = self._known(nm, "what a monotone accumulator has gained")
         return inits[0] + g
 
-    def _guard_zero(self, s):
-        """Atoms known to be zero on the path to definition site s: the site's block is entered (through gotos only)
-        from one arm of a two-way switch on `x > 0` / `x != 0` / `x == 0` / `x >= 1` / `x < 1` / `x <= 0`, and the arm
-        taken says x == 0.  Only a single unsigned atom x is recorded; anything else yields no fact."""
+    def _guard(self, s, others=()):
+        """The test under which definition site s is the one that takes effect, for a value that is "one of several by
+        control flow".  Returns a dict:
+            rel    (op, A, B, truth) -- on the path to s, `A op B` has that truth value (A, B polynomials) -- or None
+            known  False if s is conditional on something this function does not understand (the caller then treats
+                   the value as weak: a failed proof is "undecided", not a refutation)
+        Understood: the site's block is entered, through gotos only, from one arm of a two-way switch on a comparison
+        of two resolving integer expressions; or the block dominates every other definition (a default value)."""
         from cfg import cfg_of
         g = cfg_of(self.f)
         b = s.bb
+        if others and all(g.dominates(b, o.bb) for o in others if o.bb != b):
+            return dict(rel=None, known=True)
         for _ in range(4):
             ps = g.pred[b]
             if len(ps) != 1:
-                return frozenset()
+                return dict(rel=None, known=False)
             t = self.f.blocks[ps[0]]["term"]
-            if t["k"] == "goto":
+            if t["k"] in ("goto", "assert") or (t["k"] == "call" and len(g.succ[ps[0]]) == 1):
                 b = ps[0]
                 continue
             if t["k"] != "switch" or t.get("op_ty") != "bool" or len(t["targets"]) != 1:
-                return frozenset()
+                return dict(rel=None, known=False)
             val, tb = t["targets"][0]
             if tb == t["otherwise"]:
-                return frozenset()
-            cond_true = (b == t["otherwise"]) if str(val) == "0" else (b == tb)
-            if not cond_true and b != (tb if str(val) == "0" else t["otherwise"]):
-                return frozenset()
+                return dict(rel=None, known=False)
+            if str(val) == "0":
+                cond_true = (b == t["otherwise"])
+            else:
+                cond_true = (b == tb)
             cl = op_local(t["op"])
             ds = whole_defs(self.f, cl) if cl is not None else []
-            if len(ds) != 1 or ds[0].is_term or ds[0].node["rv"]["k"] != "bin":
-                return frozenset()
+            if len(ds) != 1 or ds[0].is_term or ds[0].node["rv"]["k"] != "bin" \
+                    or ds[0].node["rv"]["op"] not in ("Eq", "Ne", "Lt", "Le", "Gt", "Ge"):
+                return dict(rel=None, known=False)
             rv = ds[0].node["rv"]
-            x, kc = rv["a"], rv["b"]
-            op = rv["op"]
-            if "c" in x and "c" not in kc:       # constant on the left: mirror
-                x, kc = kc, x
-                op = {"Gt": "Lt", "Lt": "Gt", "Ge": "Le", "Le": "Ge"}.get(op, op)
-            if "c" not in kc or not isinstance(kc["c"].get("v"), int) or isinstance(kc["c"].get("v"), bool):
-                return frozenset()
-            k = kc["c"]["v"]
-            zero = (op == "Gt" and k == 0 and not cond_true) or (op == "Ne" and k == 0 and not cond_true) \
-                or (op == "Eq" and k == 0 and cond_true) or (op == "Ge" and k == 1 and not cond_true) \
-                or (op == "Lt" and k == 1 and cond_true) or (op == "Le" and k == 0 and cond_true)
-            if not zero:
-                return frozenset()
-            px = self.operand(x)
-            if len(px.t) == 1 and list(px.t.values()) == [1] and len(list(px.t)[0]) == 1:
-                return frozenset([list(px.t)[0][0]])
-            return frozenset()
-        return frozenset()
+            A, B = self.operand(rv["a"]), self.operand(rv["b"])
+            if not self.decided(A) or not self.decided(B):
+                return dict(rel=None, known=False)
+            return dict(rel=(rv["op"], A, B, cond_true), known=True)
+        return dict(rel=None, known=False)
 
     # ---- proving
     def decided(self, p):
